@@ -4431,11 +4431,30 @@ void SymbolDatabase::printOut(const char *title) const
     std::cout << std::resetiosflags(std::ios::boolalpha);
 }
 
+namespace {
+    // order the variables by their position in the code so the output does not depend on the addresses
+    struct VariableLess {
+        static nonneg int pos(const Variable *var) {
+            if (!var)
+                return 0;
+            const Token * const tok = var->nameToken() ? var->nameToken() : var->typeStartToken();
+            return tok ? tok->index() : 0;
+        }
+        bool operator()(const Variable *var1, const Variable *var2) const {
+            const nonneg int pos1 = pos(var1);
+            const nonneg int pos2 = pos(var2);
+            if (pos1 != pos2)
+                return pos1 < pos2;
+            return std::less<const Variable *>()(var1, var2);
+        }
+    };
+}
+
 void SymbolDatabase::printXml(std::ostream &out) const
 {
     std::string outs;
 
-    std::set<const Variable *> variables;
+    std::set<const Variable *, VariableLess> variables;
 
     // Scopes..
     outs += "  <scopes>\n";
